@@ -128,7 +128,7 @@ class EnvHist(Engine):
         "callback failure or by MemoryError at a chosen line event; each unfaulted call is compared with the same call "
         "in a fresh Environment. non-trivial = a failure happened inside a library call (fired injected fault, or a "
         "natural failure) AND at least 3 later judged calls share a non-leaf sub-expression with the failed call; "
-        "distinct = digest of the (operation kind, outcome class) sequence. For 1 script in 160 (quick) or every script "
+        "distinct = digest of the (operation kind, outcome class) sequence. For 1 script in 149 (quick) or every script "
         "(thorough) the fault position is ENUMERATED: every line-event position of the faulted call (all when <= 600, "
         "600 strided otherwise), one execution of the whole history per position."
     )
@@ -146,14 +146,15 @@ class EnvHist(Engine):
 
     def level_for(self, tier):
         # both tiers enumerate every fault position of the faulted call for a share of the
-        # scripts (quick: 1 script in 160, thorough: all of them)
+        # scripts (quick: 1 script in 149, thorough: all of them)
         return "fault_enumeration"
 
     def profiles(self, tier):
         if tier == "thorough":
             return ["enum"]
-        p = ["reject", "async", "callback", "async"] * 40
-        p[7] = "enum"
+        # 149 entries (coprime with any worker count, so the enumerated scripts spread over
+        # the workers), one of them enumerated
+        p = (["reject", "async", "callback", "async"] * 37) + ["enum"]
         return p
 
     # ----------------------------------------------------------------- generate
